@@ -27,6 +27,8 @@ pub enum Step {
     AppendHigh { ix: usize, bump: u8, vseed: u32 },
     Del { ix: usize, slot: u16 },
     DelAbsent { ix: usize },
+    /// del_item on every stored item, one by one (the index keeps its forest and marks but no leaf)
+    DelAll { ix: usize },
     AddBadLen { ix: usize, slot: u16, len: usize },
     AppendBadLen { ix: usize, slot: u16, len: usize },
     QueryBadLen { ix: usize, len: usize },
@@ -51,6 +53,7 @@ impl Step {
             | Step::AppendHigh { ix, .. }
             | Step::Del { ix, .. }
             | Step::DelAbsent { ix }
+            | Step::DelAll { ix }
             | Step::AddBadLen { ix, .. }
             | Step::AppendBadLen { ix, .. }
             | Step::QueryBadLen { ix, .. }
@@ -69,6 +72,7 @@ impl Step {
             Step::AppendHigh { .. } => "append_high",
             Step::Del { .. } => "del",
             Step::DelAbsent { .. } => "del_absent",
+            Step::DelAll { .. } => "del_all",
             Step::AddBadLen { .. } => "add_badlen",
             Step::AppendBadLen { .. } => "append_badlen",
             Step::QueryBadLen { .. } => "query_badlen",
@@ -458,6 +462,26 @@ pub fn run_script(spec: &ScriptSpec, cfg: &ScriptCfg, append_as_add: bool, stats
                 } else {
                     rejected_step = true;
                     stats.bump("del_absent_effective");
+                }
+            }
+            Step::DelAll { .. } => {
+                let ids: Vec<u32> = st[ix].items.keys().copied().collect();
+                if ids.is_empty() {
+                    rejected_step = true;
+                }
+                for id in ids {
+                    let r = with_metric!(metric, D => catch(|| Writer::<D>::new(db_for::<D>(raw), isp.index, isp.dims).del_item(w, id)));
+                    match r {
+                        Ok(Ok(true)) => {}
+                        other => {
+                            return violation(
+                                "op:del",
+                                format!("{ctx}: del_item({id}) = {:?}, the item did exist", other.map(|r| r.map_err(|e| format!("{e:?}"))).map_err(|p| p.message)),
+                            )
+                        }
+                    }
+                    st[ix].items.remove(&id);
+                    st[ix].stale = true;
                 }
             }
             Step::AddBadLen { slot, len, .. } | Step::AppendBadLen { slot, len, .. } => {
@@ -886,6 +910,8 @@ pub fn script(g: &ScriptGen) -> BoxedStrategy<ScriptSpec> {
                 push(w[2], (ixs.clone(), 0u8..3, any::<u32>()).prop_map(|(ix, bump, vseed)| Step::AppendHigh { ix, bump, vseed }).boxed());
                 push(w[3], (ixs.clone(), any::<u16>()).prop_map(|(ix, slot)| Step::Del { ix, slot }).boxed());
                 push(w[4], ixs.clone().prop_map(|ix| Step::DelAbsent { ix }).boxed());
+                // a quarter of the deletions empty the index item by item
+                push(w[3].div_ceil(4), ixs.clone().prop_map(|ix| Step::DelAll { ix }).boxed());
                 let lens = vec![0usize, 1, 2, 3, 5, 64, 10_000];
                 push(w[5], (ixs.clone(), any::<u16>(), select(lens.clone())).prop_map(|(ix, slot, len)| Step::AddBadLen { ix, slot, len }).boxed());
                 push(w[6], (ixs.clone(), any::<u16>(), select(lens.clone())).prop_map(|(ix, slot, len)| Step::AppendBadLen { ix, slot, len }).boxed());
